@@ -4,6 +4,7 @@ import (
 	"bufio"
 	"bytes"
 	"database/sql"
+	"errors"
 	"fmt"
 	"io"
 	"mime"
@@ -1122,10 +1123,14 @@ func ExtractDomain(email string) (string, error) {
 	return parts[1], nil
 }
 
+// ErrMessageTooLarge is returned by ReadDataCommand when the message data exceeds the size limit
+var ErrMessageTooLarge = errors.New("message size exceeds maximum allowed size")
+
 // ReadDataCommand reads the message data from an LMTP DATA command
 func ReadDataCommand(r *bufio.Reader, maxSize int64) ([]byte, error) {
 	var buf bytes.Buffer
 	var size int64
+	tooLarge := false
 
 	for {
 		line, err := r.ReadString('\n')
@@ -1136,6 +1141,13 @@ func ReadDataCommand(r *bufio.Reader, maxSize int64) ([]byte, error) {
 		// Check for end of data marker (single dot on a line)
 		if line == ".\r\n" || line == ".\n" {
 			break
+		}
+
+		// Once the size limit is exceeded the rest of the message is discarded, but it
+		// must still be read up to the end of data marker: the client keeps sending it
+		// and anything left unread would be taken for commands
+		if tooLarge {
+			continue
 		}
 
 		// Handle dot-stuffing (RFC 2821 section 4.5.2)
@@ -1153,8 +1165,13 @@ func ReadDataCommand(r *bufio.Reader, maxSize int64) ([]byte, error) {
 
 		// Check size limit
 		if size > maxSize {
-			return nil, fmt.Errorf("message size exceeds maximum allowed size (%d bytes)", maxSize)
+			tooLarge = true
+			buf.Reset()
 		}
+	}
+
+	if tooLarge {
+		return nil, fmt.Errorf("%w (%d bytes)", ErrMessageTooLarge, maxSize)
 	}
 
 	return buf.Bytes(), nil
